@@ -134,6 +134,7 @@ def _rules():
             lambda R, c, rid: shared.text_units(R, c, rid),
             lambda R, c, rid: shared.format_replacement(R, c, rid),
             lambda R, c, rid: accessors.text_length_unit(R, c, rid),
+            lambda R, c, rid: shared.format_balance(R, c, rid),
         ],
         "update-events": [
             lambda R, c, rid: _as(R, c, rid, c07.rule_b, "C07.b"),
